@@ -134,7 +134,7 @@ def impl_lines(case, res):
     pnames = sorted(res["procs"], key=lambda n: int(n[1:]))
     ps = ["alive" if res["procs"][n]["alive"] else "exited" for n in pnames]
     q = ["%d:%s" % (x["unf"], ".".join(x["items"])) for x in res["queues"]]
-    en_final = ""
+    en_final = ",".join(res.get("enabled_final", []))
     lines.append("F|en=%s|futs=%s|outs=%s|main=%s|ws=%s|ps=%s|q=%s" % (
         en_final, ",".join(futs), ",".join(outs), "end" if ents["M"][0] == "done" else "live",
         ",".join(ws), ",".join(ps), ",".join(q)))
@@ -264,8 +264,8 @@ def impl_lines_x(case, res):
         disp = "live" if st not in ("done", "killed") else ("dead" if exc else "done")
     else:
         disp = "none"
-    lines.append("F|en=|futs=%s|outs=%s|main=%s|disp=%s|ws=%s|ps=%s|q=%s" % (
-        ",".join(futs), ",".join(outs), "end" if ents["M"][0] == "done" else "live", disp,
+    lines.append("F|en=%s|futs=%s|outs=%s|main=%s|disp=%s|ws=%s|ps=%s|q=%s" % (
+        ",".join(res.get("enabled_final", [])), ",".join(futs), ",".join(outs), "end" if ents["M"][0] == "done" else "live", disp,
         ",".join(ws), ",".join(ps), ",".join(q)))
     return lines
 
@@ -493,8 +493,8 @@ def impl_lines_f(case, res):
         loop = "live" if st not in ("done", "killed") else ("dead" if exc else "done")
     else:
         loop = "none"
-    lines.append("F|en=|futs=%s|outs=%s|main=%s|loop=%s|ps=%s|q=%s|nfiles=%d" % (
-        ",".join(futs), ",".join(outs), "end" if ents["M"][0] == "done" else "live", loop,
+    lines.append("F|en=%s|futs=%s|outs=%s|main=%s|loop=%s|ps=%s|q=%s|nfiles=%d" % (
+        ",".join(res.get("enabled_final", [])), ",".join(futs), ",".join(outs), "end" if ents["M"][0] == "done" else "live", loop,
         ",".join(ps), ",".join(q), res.get("nfiles", len(res.get("dir", {})))))
     return lines
 
@@ -580,8 +580,11 @@ def impl_lines_fs(case, res):
         loop = "live" if st not in ("done", "killed") else ("dead" if exc else "done")
     else:
         loop = "none"
-    lines.append("F|en=|futs=%s|outs=%s|main=%s|loop=%s|ps=%s|q=%s|nfiles=%d" % (
-        ",".join(futs), ",".join(outs), "end" if ents["M"][0] == "done" else "live", loop,
+    nprev_names = {"P%d" % k for k in range(1, nprev + 1)}
+    en_final = [("P%d" % (int(n[1:]) - nprev)) if n[:1] == "P" and n[1:].isdigit() else n
+                for n in res.get("enabled_final", []) if n not in nprev_names]
+    lines.append("F|en=%s|futs=%s|outs=%s|main=%s|loop=%s|ps=%s|q=%s|nfiles=%d" % (
+        ",".join(en_final), ",".join(futs), ",".join(outs), "end" if ents["M"][0] == "done" else "live", loop,
         ",".join(ps), ",".join(q), res.get("nfiles", -1)))
     return lines
 
